@@ -11,7 +11,11 @@ type zzVal struct {
 	released int
 }
 
-func (v *zzVal) Release() { v.released++; zzCheckNoHandleTo(v) }
+func (v *zzVal) Release() {
+	vpYield() // a real finaliser closes a file: other threads run meanwhile (no effect in the sequential harnesses)
+	v.released++
+	zzCheckNoHandleTo(v)
+}
 
 type zzHandle struct {
 	h        *Handle
